@@ -79,6 +79,14 @@ func DiskTerms(evs []*scorch.VerifEvent, n *strace.Namer, ver strace.VersionOf) 
 		for pos < len(out) && !out[pos].intro && strings.HasPrefix(string(out[pos].term), "(XCore (TMergeStart") {
 			pos++
 		}
+		// ... but never before an earlier step of the merging goroutine itself: a merge that was
+		// abandoned before this one was planned
+		for i := len(out) - 1; i >= pos; i-- {
+			if strings.HasPrefix(string(out[i].term), "(XMergeAbort") {
+				pos = i + 1
+				break
+			}
+		}
 		out = append(out, ditem{})
 		copy(out[pos+1:], out[pos:])
 		out[pos] = it
